@@ -684,3 +684,49 @@ pub fn cmd_session(args: &[String]) {
     }
     rep.write(&args[0]);
 }
+
+
+/// `stream-vectors <vectors.json> <out.json>` (C03): crafted first messages of a stream (tools/polycraft.py: the Poly1305
+/// accumulator reaches a rare value in the middle or at the end of the MAC) pushed and pulled by dryoc (classic and
+/// object API) and by libsodium; the wire bytes must be the expected ones and every puller must return the message.
+pub fn cmd_vectors(args: &[String]) {
+    let vecs: Value = serde_json::from_str(&std::fs::read_to_string(&args[0]).unwrap()).unwrap();
+    let mut rep = Report::new();
+    let b = |v: &Value| -> Vec<u8> { v.as_array().unwrap().iter().map(|x| x.as_u64().unwrap() as u8).collect() };
+    for v in vecs.as_array().unwrap() {
+        let (key, header, msg, wire) = (b(&v["key"]), b(&v["header"]), b(&v["msg"]), b(&v["wire"]));
+        let key: [u8; 32] = key.try_into().unwrap();
+        let header: [u8; 24] = header.try_into().unwrap();
+        let d = json!({"target": v["target"], "where": v["where"], "mlen": v["mlen"], "block": v["block"]});
+        rep.case(&format!("{}|{}|{}|{}", v["target"], v["where"], v["mlen"], v["block"]));
+        // libsodium agrees with the crafted expectation (else the vector itself is wrong)
+        let (_, mut sp) = init_pair(&key, &header, 1);
+        if so_push(&mut sp, &msg, None, 0) != wire { rep.fail("HARNESS: crafted stream vector differs from libsodium", d.clone()); continue; }
+        rep.evaluations += 4;
+        let (mut dp, _) = init_pair(&key, &header, 1);
+        let mut c = vec![0u8; msg.len() + ABYTES];
+        match cs::crypto_secretstream_xchacha20poly1305_push(&mut dp, &mut c, &msg, None, 0) {
+            Ok(_) => if c != wire { rep.fail("classic push: ciphertext differs from libsodium on a crafted Poly1305 corner", d.clone()); },
+            Err(e) => rep.fail("classic push failed on a crafted Poly1305 corner", json!({"d": d, "err": format!("{:?}", e)})),
+        }
+        let (dq, _) = init_pair(&key, &header, 1);
+        let mut op: DryocStream<Push> = DryocStream::verif_from_state(dq);
+        match op.push_to_vec(&msg, None, Tag::MESSAGE) {
+            Ok(c2) => if c2 != wire { rep.fail("DryocStream::push_to_vec: ciphertext differs from libsodium on a crafted Poly1305 corner", d.clone()); },
+            Err(e) => rep.fail("DryocStream::push_to_vec failed on a crafted Poly1305 corner", json!({"d": d, "err": format!("{:?}", e)})),
+        }
+        let (mut dl, _) = init_pair(&key, &header, 1);
+        let mut m = vec![0u8; msg.len()];
+        let mut t = 0xeeu8;
+        match cs::crypto_secretstream_xchacha20poly1305_pull(&mut dl, &mut m, &mut t, &wire, None) {
+            Ok(_) => if m != msg || t != 0 { rep.fail("classic pull: wrong message for a stream message whose MAC passes a Poly1305 corner", d.clone()); },
+            Err(_) => rep.fail("classic pull rejects a genuine stream message whose MAC passes a Poly1305 corner", d.clone()),
+        }
+        let mut ol: DryocStream<Pull> = DryocStream::init_pull(&dryoc::types::StackByteArray::from(&key), &dryoc::types::StackByteArray::from(&header));
+        match ol.pull_to_vec(&wire, None) {
+            Ok((mm, tt)) => if mm != msg || tt.bits() != 0 { rep.fail("DryocStream::pull_to_vec: wrong message for a stream message whose MAC passes a Poly1305 corner", d.clone()); },
+            Err(_) => rep.fail("DryocStream::pull_to_vec rejects a genuine stream message whose MAC passes a Poly1305 corner", d.clone()),
+        }
+    }
+    rep.write(&args[1]);
+}
